@@ -5,5 +5,14 @@ cd /verif
 names="$@"
 [ -z "$names" ] && names=$(ls seeded | grep -v MATRIX | grep -v "^NA_")
 echo $names | tr ' ' '\n' | xargs -P 3 -I{} sh tools/seed_own.sh {} | tee /tmp/w/matrix_own.part
-sort /tmp/w/matrix_own.part > seeded/MATRIX_own.txt
+python3 - <<'PY'
+rows = {}
+import os
+for f in ("/verif/seeded/MATRIX_own.txt", "/tmp/w/matrix_own.part"):
+    if os.path.exists(f):
+        for ln in open(f):
+            if "|" in ln:
+                rows[ln.split("|")[0].strip()] = ln.rstrip("\n")
+open("/verif/seeded/MATRIX_own.txt", "w").write("\n".join(rows[k] for k in sorted(rows)) + "\n")
+PY
 git checkout -q -- evidence 2>/dev/null; rm -f /verif/replay/*.json
